@@ -38,6 +38,9 @@ func Analyse(def *Def, cfg load.Config, tier string) ([]chk.Obligation, int) {
 	for _, b := range fa.CheckSingleRoot() {
 		c.Undecided("ENGINE", nil, b, 0, "path-keyed facts are ambiguous: %s", b)
 	}
+	if os.Getenv("JRPCVET_DEBUG") != "" {
+		DebugReader(c)
+	}
 	def.Run(c, tier)
 	c.Finish()
 	return c.Obs, len(lp.Funcs)
